@@ -158,7 +158,7 @@ impl RotoReport {
                     for hint in &error.hints {
                         let label = Label::new((
                             self.filename(hint.location),
-                            hint.location.start..hint.location.end,
+                            hint.location.character_range(file_text),
                         ))
                         .with_message(&hint.text)
                         .with_color(Color::Yellow);
